@@ -33,6 +33,8 @@ EXTRA = [
     # e-mail / website sections that are NOT the last section of the password
     ['bob@gmail.com123', 'carol@yahoo.com!', 'www.site.com99', 'pass12', 'pass12', '12www.site.org', 'x1bob@gmail.com'],
     ['al@a.com1', 'http://www.b.net/x 1', 'letmein'],
+    # several different sections of the same kind and length inside ONE password, all with tied counts (order among ties must not depend on hashing)
+    ['kot7pes', '12ab34', '!!a??', 'hax1juk', 'dac2nep', 'paw3fig', '56cd78', '##b$$', 'Kot7Pes'],
 ]
 COVERAGES = [0.6, 1.0, 0.0, 0.25, 0.5]
 
@@ -62,7 +64,7 @@ def shards(tier):
 
 def bounds(tier):
     return {'pool': c03.POOL_Q if tier == 'quick' else c03.POOL_T, 'extra_lists': EXTRA, 'coverages': COVERAGES,
-            'determinism': 'every list trained twice in-process; %d lists in two subprocesses (PYTHONHASHSEED 1 and 2)' % (4 if tier == 'quick' else 12)}
+            'determinism': 'every list trained twice in-process; %d lists in three subprocesses (PYTHONHASHSEED 1, 2, 3)' % (4 if tier == 'quick' else 12)}
 
 
 def mask_of(s):
@@ -230,13 +232,13 @@ print('OK' if ok is True else 'FAIL')
 
 def run_subproc(tier, acc):
     wd = tree.mkdtemp('pcfgmc-c06s-')
-    lists = [(c03.SCENARIOS[0], {}), (EXTRA[0], {}), (EXTRA[2], dict(coverage=0.25)), (c03.SCENARIOS[3], {})]
+    lists = [(c03.SCENARIOS[0], {}), (EXTRA[0], {}), (EXTRA[2], dict(coverage=0.25)), (c03.SCENARIOS[3], {}), (EXTRA[-1], {})]
     if tier == 'thorough':
         lists += [(l, {}) for l in c03.SCENARIOS[1:6] + EXTRA[3:]]
     verif = os.path.dirname(os.path.dirname(os.path.dirname(os.path.abspath(__file__))))
     for i, (lines, opts) in enumerate(lists):
         trees = []
-        for seed in ('1', '2'):
+        for seed in ('1', '2', '3'):
             job = os.path.join(wd, 'job.json')
             with open(job, 'w') as f:
                 json.dump({'wd': wd, 'lines': lines, 'rule': 's' + seed, 'opts': opts}, f)
@@ -249,13 +251,14 @@ def run_subproc(tier, acc):
                     break
                 raise RuntimeError('harness: subprocess training failed: ' + r.stdout[-300:] + r.stderr[-300:])
             trees.append(P.tree_bytes(os.path.join(wd, 'Rules', 's' + seed)))
-        if len(trees) < 2:
+        if len(trees) < 3:
             continue
         acc.nontrivial += 1
-        if trees[0] != trees[1]:
-            diff = [k for k in set(trees[0]) | set(trees[1]) if trees[0].get(k) != trees[1].get(k)]
+        if trees[0] != trees[1] or trees[0] != trees[2]:
+            other = trees[1] if trees[0] != trees[1] else trees[2]
+            diff = [k for k in set(trees[0]) | set(other) if trees[0].get(k) != other.get(k)]
             acc.fail({'lines': lines, 'opts': opts, 'subprocess': True},
-                     'trainings in two processes (PYTHONHASHSEED 1 vs 2) differ in %r' % diff[:4], 'nondeterministic')
+                     'trainings in separate processes (PYTHONHASHSEED 1, 2, 3) differ in %r' % diff[:4], 'nondeterministic')
     tree.rmtree(wd)
 
 
